@@ -2615,6 +2615,10 @@ func c08_runC08(e *Env) {
 		"SERIES: 2-4 objects converted one after the other through ONE converter (conv.To + slot) or passed to ONE Go method " +
 		"(70% struct types S, *S, []S, [n]S, map[string]S filled from maps, the first map naming most fields, later ones fewer); " +
 		"every result is compared with the model's single conversion and the Spec is evaluated per element. " +
+		"FIRST USE of a Go type by several goroutines at once (30 / 240 child processes, each: one race of 2-4 goroutines calling methods of the never-seen host type " +
+		"— 3 fields, ~70 methods — and 25 / 40 rounds over reflect.StructOf types of 8-120 fields made for the round, a third of them also contained in an outer fresh struct " +
+		"that the first goroutine proxies; paths NewProxy+GetAttr, NewTypeConverter+From, risor.Eval global; the goroutines leave one barrier after seeded delays — the interleaving aimed at is part of the case; " +
+		"every goroutine's field read / method call is compared with the model's sequential one and judged by the Spec; a child that dies is a violation). " +
 		"Non-trivial: type depth >= 1 or a boundary value; distinct by the canonical text of the case."
 	r := &c08Run{e: e, g: &c08_gen{r: e.Rng.Fork()}}
 	r.directed()
@@ -2629,6 +2633,14 @@ func c08_runC08(e *Env) {
 	if !e.Quick {
 		nh = 40000
 	}
+	// first use of a Go type racing with other uses of it (c08_firstuse.go): child processes
+	fu := &c08Run{e: e, g: &c08_gen{r: e.Rng.Fork()}}
+	if e.Quick {
+		fu.firstUseChildren(30, 25)
+	} else {
+		fu.firstUseChildren(240, 40)
+	}
+	fu.flush()
 	hg := &c08Run{e: e, g: &c08_gen{r: e.Rng.Fork()}}
 	for i := 0; i < nh; i++ {
 		hg.histCase()
